@@ -23,7 +23,7 @@ func pathInitPkg(p *ssa.Package) bool {
 var staticInitPkgs = map[string]bool{
 	"strconv": true, "unicode/utf8": true, "strings": true, "container/list": true,
 	"github.com/kamstrup/intmap": true, "math/bits": true, "slices": true, "sort": true,
-	"bufio": true, "bytes": true, "unicode/utf16": true, "math": true, "cmp": true, "errors": false,
+	"bufio": true, "bytes": true, "unicode/utf16": true, "cmp": true,
 }
 
 func (e *Engine) global(g *ssa.Global) Val {
@@ -82,7 +82,7 @@ func (e *Engine) runInit(pkg *ssa.Package) {
 	if f := pkg.Func("init"); f != nil {
 		saved := e.fuel
 		e.fuel = 1 << 40
-		e.call(f, nil, nil)
+		e.callBody(f, nil, nil)
 		e.fuel = saved
 	}
 }
@@ -97,7 +97,7 @@ func (e *Engine) runStaticInit(pkg *ssa.Package) {
 	savedG, savedFuel := e.globals, e.fuel
 	e.globals = e.staticGlobals
 	e.fuel = 1 << 40
-	e.call(f, nil, nil)
+	e.callBody(f, nil, nil)
 	e.globals = savedG
 	e.fuel = savedFuel
 }
